@@ -8,18 +8,27 @@ int add1 (int x) { return x + 1; }
 int twice (int x) { return 2 * x; }
 string who (object o) { return o ? "/vreg"->oid_of (o) : "0"; }
 void cb_probe () { }
+int add2 (int x, int y) { return x + y; }
 void probe () {
   mixed e;
   int *a;
   string s;
   object u, o;
   mixed d, l;
+  int *z;
+  int lc;
+  string ve;
+  // interpreter scratch state first (before any other call can consume it): the count of arguments a `...` spread adds
+  // (num_varargs) must be 0 again after a failed evaluation - an array literal, a local call and a varargs efun would add it
+  z = ({ 7, 8 });
+  lc = add2 (1, 2);
+  ve = sprintf ("%d", 5);
   // the two guards that error_handler must have reset: destructing another object, loading a fresh file
   o = new ("/c05/box");
   d = catch (destruct (o));
   l = catch (load_object ("/c05/fresh"));
   if (o = find_object ("/c05/fresh")) destruct (o);
-  s = "tp=" + who (this_player ()) + " po=" + who (previous_object ()) + " d=" + d + " l=" + l;
+  s = "lit=" + sizeof (z) + " lc=" + lc + " ve=" + ve + " tp=" + who (this_player ()) + " po=" + who (previous_object ()) + " d=" + d + " l=" + l;
   a = map (({ 1, 2, 3 }), (: add1 :));
   a = filter (a, (: $1 > 2 :));
   e = catch (error ("probe-err\n"));
